@@ -378,7 +378,7 @@ static void c16_type(Context& cx)
                     auto px = *rc::gen::container<std::vector<Pol>>((size_t)n, rc::gen::resize(100, polg(-kmax, khi)));
                     auto py = *rc::gen::container<std::vector<Pol>>((size_t)n, rc::gen::resize(100, polg(mode == 1 ? -3 : -kmax, mode == 1 ? 3 : kmax)));
                     auto pz = *rc::gen::container<std::vector<Pol>>((size_t)n, rc::gen::resize(100, polg(-kmax, kmax)));
-                    auto ur = *rc::gen::container<std::vector<uint64_t>>((size_t)(6 * n), rc::gen::arbitrary<uint64_t>());
+                    auto ur = *rc::gen::container<std::vector<uint64_t>>((size_t)(6 * n), rc::gen::resize(100, rc::gen::arbitrary<uint64_t>()));
                     bool nontrivial = false;
                     for (int l = 0; l < n; ++l)
                     {
